@@ -156,6 +156,36 @@ def check(run):
                                 run.violation("out-array-not-filled-or-not-returned", f"Wigner.rotate[horner={horner}]", inp, "out holds the values", "no")
                             if not np.array_equal(modes.ndarray, marr):
                                 run.violation("input-modified", f"Wigner.rotate[horner={horner}]", inp, "modes unchanged", "changed")
+    # rotor counts that coincide with the size of the mode axis (a list of exactly Ysize / Dsize rotors, a Ysize x Ysize grid of rotors): the
+    # documented output shape R.shape[:-1] + (size,) is then square / cubic, and anything that guesses a layout from the shape goes wrong
+    wS = spherical.Wigner(2)
+    wlS = spherical.Wigner(3, mp_max=1)
+    for name, obj, size, fn in (("D", wS, wS.Dsize, lambda Rq_, o, ws_: wS.D(Rq_, out=o, workspace=ws_)),
+                                ("sYlm", wlS, wlS.Ysize, lambda Rq_, o, ws_: wlS.sYlm(1, Rq_, out=o, workspace=ws_)),
+                                ("sYlm", wS, wS.Ysize, lambda Rq_, o, ws_: wS.sYlm(-2, Rq_, out=o, workspace=ws_))):
+        for shape in ((size,), (size, size)) if size <= 16 else ((size,),):
+            n = int(np.prod(shape))
+            Rarr = np.array([helpers.random_rotor(rng) for _ in range(n)]).reshape(shape + (4,))
+            Rq_ = quaternionic.array(Rarr)
+            per = np.stack([fn(quaternionic.array(r), None, None) for r in Rarr.reshape(-1, 4)]).reshape(shape + (size,))
+            for out_kind in ("none", "flat", "shaped"):
+                for use_ws in (False, True):
+                    o = None if out_kind == "none" else (np.full(per.size, np.nan + 0j) if out_kind == "flat" else np.full(per.shape, np.nan + 0j))
+                    inp = {"method": name, "R_shape": list(shape), "R_layout": "C", "out": out_kind, "workspace": use_ws, "calculator": {"ell_max": obj.ell_max, "mp_max": obj.mp_max},
+                           "note": "number of rotors along each axis equals the size of the mode axis"}
+                    run.gap_case("vectorised-D-sYlm", (name, shape, "size-coincidence", out_kind, use_ws), f"{name}|rank{len(shape)}|rotor-count=size|out={out_kind}", inp)
+                    try:
+                        r = fn(Rq_, o, obj.new_workspace() if use_ws else None)
+                    except Exception as e:
+                        run.violation("vectorised-call-raised", f"Wigner.{name}", inp, "values", repr(e))
+                        continue
+                    if r.shape != shape + (size,):
+                        run.violation("vectorised-shape", f"Wigner.{name}", inp, list(shape + (size,)), list(r.shape))
+                        continue
+                    if not helpers.bits_equal(r, per):
+                        run.violation("vectorised-differs-from-per-rotor", f"Wigner.{name}", inp, "bit-identical to single-rotor calls", "differs")
+                    if o is not None and (not np.shares_memory(r, o) or not helpers.bits_equal(o.reshape(per.shape), per)):
+                        run.violation("out-array-not-filled-or-not-returned", f"Wigner.{name}", inp, "out holds the values and is returned", "no")
     # rotate with out= on calculators whose range starts above |s| (the default strategy has no D blocks below ell_min there)
     for emin in (1, 2):
         we = spherical.Wigner(L, ell_min=emin)
